@@ -45,6 +45,6 @@ m['confirmed']={'demo_passes_without_change':rc0=='0','demo_fails_with_change':r
 m['checks_run']={}
 for i in ids:
     t=open(out+'/check_%s.log'%i).read()
-    m['checks_run'][i]={'exit':int(t.strip().split('exit=')[-1]),'first_signature':next((l.strip() for l in t.splitlines() if 'signature' in l),'')}
+    m['checks_run'][i]={'exit':int(t.strip().split('exit=')[-1]),'first_signature':next((l.strip() for l in t.splitlines() if l.strip().startswith('signature:')),'')}
 json.dump(m,open(out+'/meta.json','w'),indent=1)
 PY
